@@ -264,9 +264,10 @@ def _judge(case: dict[str, Any], vec: list[str], rnd: dict[str, Any], rec: Any, 
         # the request sits exactly on the advertised exclusion bound; advertised (per-group sums) and enforced
         # (sums over all components) add the same numbers in different orders: last-ulp sliver, counted
         b = res.bounds
+        beyond_incl = not (b.inclusion_lower - 1e-9 <= p <= b.inclusion_upper + 1e-9)
         for edge in (b.exclusion_lower, b.exclusion_upper):
-            if edge != 0 and abs(p - edge) <= 1e-9 * max(1.0, abs(edge)):
-                rec.count("request-on-exclusion-bound-in-ulp-sliver")
+            if edge != 0 and abs(p - edge) <= 1e-9 * max(1.0, abs(edge)) and not (beyond_incl and not case.get("adjust", True)):
+                rec.violation("request-on-the-advertised-exclusion-bound-refused", {**w, "enforced_exclusion": [b.exclusion_lower, b.exclusion_upper]})
                 return
     if isinstance(res, (Error, OutOfBounds)):
         if first and (case["kind"] == "pv" or abs(p) > 0):
